@@ -30,9 +30,6 @@ ASSUMPTIONS = [
     "CLI: only ASCII input strings are generated (re's \\d also matches non-ASCII digits; not modelled)",
 ]
 PARTIAL = [
-    "meshAllSyms_act: meshAllSyms (g.actMesh m) = meshAllSyms m as *lists* (canonical listing identical for every orbit "
-    "member) - only the membership version mem_meshAllSyms_act is proved (allSyms_act / allSymmetrySets_act for "
-    "permutations and sets are proved as list equalities)",
     "lex_min under duplication of the input: NOT claimed - sorted(perms) keeps duplicates, so lex_min([p, p]) differs "
     "from lex_min([p]) by construction; proved instead: invariance under every symmetry (lexMin_act) and under "
     "reordering (lexMin_perm); the code's callers pass a Basis / set",
